@@ -217,3 +217,40 @@ func vh_C05_entra_nonce() {
 		verifReach("invalid")
 	}
 }
+
+// token first: the profile endpoint is consulted only for claims the verified token lacks, and
+// what it answers never replaces a claim the token carries -- whatever order the claims are
+// looked up in
+// verif: unwind=8 strlen=8 also=C14
+func vh_C04_token_claims_first() {
+	// the token has an e-mail, groups and marks the e-mail unverified or verified; it lacks
+	// preferred_username (and possibly the user claim), so the profile endpoint is consulted
+	verified := ndBool("token-says-email-verified")
+	claims := map[string]interface{}{"email": "token@b.c", "groups": []interface{}{"token-group"}, "email_verified": verified}
+	tokenHasSub := ndBool("token-has-sub")
+	if tokenHasSub {
+		claims["sub"] = "token-sub"
+	}
+	tok := verifIDToken(claims)
+	profile := verifHTTPJSON(200, map[string]interface{}{"sub": "profile-sub", "email": "profile@evil.example", "groups": []interface{}{"admins"},
+		"email_verified": true, "preferred_username": "profile-name"})
+	pu, _ := url.Parse(profile)
+	pd := &ProviderData{ProfileURL: pu, EmailClaim: options.OIDCEmailClaim, UserClaim: "sub", GroupsClaim: "groups"}
+	pd.getAuthorizationHeaderFunc = makeOIDCHeader
+	ss, err := pd.buildSessionFromClaims(tok, "the-access-token")
+	if err == nil {
+		verifReach("session")
+		verifAssert("C04.first.unverified-token-email-refused-whatever-the-profile-says", verified)
+		verifAssert("C04.first.email-from-the-token", ss.Email == "token@b.c")
+		verifAssert("C04.first.groups-from-the-token", len(ss.Groups) == 1 && ss.Groups[0] == "token-group")
+		if tokenHasSub {
+			verifAssert("C04.first.user-from-the-token", ss.User == "token-sub")
+		} else {
+			verifAssert("C04.first.missing-claim-from-the-profile", ss.User == "profile-sub")
+		}
+		verifAssert("C04.first.missing-claim-from-the-profile", ss.PreferredUsername == "profile-name")
+	} else {
+		verifReach("refused")
+		verifAssert("C04.first.refused-only-for-an-unverified-email", !verified)
+	}
+}
